@@ -61,6 +61,19 @@ type proxy struct {
 	faulted                   bool
 	curMig                    int // migration whose Migrate is running (-1 none), for diagnostics
 	faultMig                  int
+	// observation of the modelled migrations (headstate, statedifflength): every successful write
+	// while obsOn, with the keys of the batch and a copy of the database after it
+	obsOn  bool
+	events []wevent
+}
+
+// one successful write: a committed batch (the keys put into it), a DeleteRange on the store, or
+// any other direct write
+type wevent struct {
+	kind  string // "batch" | "delrange" | "other"
+	keys  [][]byte
+	start []byte
+	cp    *memory.Database
 }
 
 var errInjected = errors.New("verif: injected I/O error")
@@ -116,11 +129,23 @@ func (p *proxy) onRead() {
 	}
 	p.mu.Unlock()
 }
-func (p *proxy) onWrite() {
+func (p *proxy) onWrite(ev *wevent) {
 	p.mu.Lock()
 	p.writes++
+	var cp *memory.Database
 	if p.keep {
-		p.copies = append(p.copies, p.mem.Copy())
+		cp = p.mem.Copy()
+		p.copies = append(p.copies, cp)
+	}
+	if p.obsOn {
+		if ev == nil {
+			ev = &wevent{kind: "other"}
+		}
+		if cp == nil {
+			cp = p.mem.Copy()
+		}
+		ev.cp = cp
+		p.events = append(p.events, *ev)
 	}
 	if p.writes == p.cancelAtWrite && p.cancel != nil {
 		p.cancel()
@@ -158,7 +183,7 @@ func (p *proxy) Put(k, v []byte) error {
 	}
 	err := p.KeyValueStore.Put(k, v)
 	if err == nil {
-		p.onWrite()
+		p.onWrite(nil)
 	}
 	return err
 }
@@ -168,7 +193,7 @@ func (p *proxy) Delete(k []byte) error {
 	}
 	err := p.KeyValueStore.Delete(k)
 	if err == nil {
-		p.onWrite()
+		p.onWrite(nil)
 	}
 	return err
 }
@@ -178,7 +203,7 @@ func (p *proxy) DeleteRange(a, b []byte) error {
 	}
 	err := p.KeyValueStore.DeleteRange(a, b)
 	if err == nil {
-		p.onWrite()
+		p.onWrite(&wevent{kind: "delrange", start: append([]byte{}, a...)})
 	}
 	return err
 }
@@ -188,7 +213,7 @@ func (p *proxy) Update(fn func(db.IndexedBatch) error) error {
 	}
 	err := p.KeyValueStore.Update(fn)
 	if err == nil {
-		p.onWrite()
+		p.onWrite(nil)
 	}
 	return err
 }
@@ -198,14 +223,29 @@ func (p *proxy) Write(fn func(db.Batch) error) error {
 	}
 	err := p.KeyValueStore.Write(fn)
 	if err == nil {
-		p.onWrite()
+		p.onWrite(nil)
 	}
 	return err
 }
 
 type pbatch struct {
 	db.Batch
-	p *proxy
+	p       *proxy
+	keys    [][]byte
+	nonPuts int // Delete / DeleteRange recorded into the batch
+}
+
+func (b *pbatch) Put(k, v []byte) error {
+	b.keys = append(b.keys, append([]byte{}, k...))
+	return b.Batch.Put(k, v)
+}
+func (b *pbatch) Delete(k []byte) error {
+	b.nonPuts++
+	return b.Batch.Delete(k)
+}
+func (b *pbatch) DeleteRange(s, e []byte) error {
+	b.nonPuts++
+	return b.Batch.DeleteRange(s, e)
 }
 
 func (b *pbatch) Write() error {
@@ -214,7 +254,11 @@ func (b *pbatch) Write() error {
 	}
 	err := b.Batch.Write()
 	if err == nil {
-		b.p.onWrite()
+		kind := "batch"
+		if b.nonPuts > 0 {
+			kind = "other"
+		}
+		b.p.onWrite(&wevent{kind: kind, keys: b.keys})
 	}
 	return err
 }
@@ -230,12 +274,14 @@ func (b *pibatch) Write() error {
 	}
 	err := b.IndexedBatch.Write()
 	if err == nil {
-		b.p.onWrite()
+		b.p.onWrite(nil)
 	}
 	return err
 }
-func (p *proxy) NewBatch() db.Batch              { return &pbatch{p.KeyValueStore.NewBatch(), p} }
-func (p *proxy) NewBatchWithSize(n int) db.Batch { return &pbatch{p.KeyValueStore.NewBatchWithSize(n), p} }
+func (p *proxy) NewBatch() db.Batch              { return &pbatch{Batch: p.KeyValueStore.NewBatch(), p: p} }
+func (p *proxy) NewBatchWithSize(n int) db.Batch {
+	return &pbatch{Batch: p.KeyValueStore.NewBatchWithSize(n), p: p}
+}
 func (p *proxy) NewIndexedBatch() db.IndexedBatch {
 	return &pibatch{p.KeyValueStore.NewIndexedBatch(), p}
 }
@@ -728,6 +774,8 @@ type spy struct {
 	onBefore func(idx int, st []byte)
 	px       *proxy
 	win      map[int][4]int // idx -> freads, fwrites at Migrate entry / exit
+	tok      []byte         // what Before received
+	obs      *[]migObs      // observed Migrate calls of the modelled migrations (headstate, statedifflength)
 }
 
 func (s *spy) Before(st []byte) error {
@@ -739,6 +787,7 @@ func (s *spy) Before(st []byte) error {
 	if s.onBefore != nil {
 		s.onBefore(s.idx, st)
 	}
+	s.tok = st
 	return s.inner.Before(st)
 }
 func (s *spy) Migrate(ctx context.Context, d db.KeyValueStore, n *networks.Network, l log.StructuredLogger) ([]byte, error) {
@@ -749,7 +798,22 @@ func (s *spy) Migrate(ctx context.Context, d db.KeyValueStore, n *networks.Netwo
 		w[0], w[1] = s.px.freads, s.px.fwrites
 		s.px.mu.Unlock()
 	}
+	modelled := s.px != nil && s.obs != nil && (s.idx == 2 || s.idx == 3)
+	var pre *memory.Database
+	if modelled {
+		s.px.mu.Lock()
+		pre = s.px.mem.Copy()
+		s.px.obsOn, s.px.events = true, nil
+		s.px.mu.Unlock()
+	}
 	st, err := s.inner.Migrate(ctx, d, n, l)
+	if modelled {
+		s.px.mu.Lock()
+		*s.obs = append(*s.obs, migObs{idx: s.idx, tok: s.tok, pre: pre, events: s.px.events, post: s.px.mem.Copy(),
+			st: st, err: err, ctxErr: ctx.Err() != nil && errors.Is(err, ctx.Err())})
+		s.px.obsOn, s.px.events = false, nil
+		s.px.mu.Unlock()
+	}
 	if s.px != nil {
 		s.px.mu.Lock()
 		s.px.curMig = -1
@@ -818,9 +882,10 @@ type runOut struct {
 	log    []string
 	bad    []string
 	merged []string
+	obs    []migObs
 }
 
-func realRegistry(c cfg, evlog, bad *[]string, onBefore func(int, []byte), px *proxy, win map[int][4]int) *migration.Registry {
+func realRegistry(c cfg, evlog, bad *[]string, onBefore func(int, []byte), px *proxy, win map[int][4]int, obs *[]migObs) *migration.Registry {
 	reg := migration.NewRegistry()
 	retained := c.retained
 	if retained == 0 {
@@ -830,7 +895,7 @@ func realRegistry(c cfg, evlog, bad *[]string, onBefore func(int, []byte), px *p
 		if i >= c.nmig {
 			return
 		}
-		s := &spy{inner: m, idx: i, log: evlog, bad: bad, onBefore: onBefore, px: px, win: win}
+		s := &spy{inner: m, idx: i, log: evlog, bad: bad, onBefore: onBefore, px: px, win: win, obs: obs}
 		if optional {
 			reg.WithOptional(s, enabled, name)
 		} else {
@@ -869,7 +934,7 @@ func runReal(m *memory.Database, c cfg, keep bool, cancelAtWrite, cancelAtRead i
 			px.cancelAtRead = px.reads + c.cancelReads
 			px.mu.Unlock()
 		}
-	}, px, out.win)
+	}, px, out.win, &out.obs)
 	before, _ := migration.GetSchemaMetadata(m)
 	runner, newErr := migration.NewRunner(reg, px, &networks.Sepolia, log.NewNopZapLogger())
 	var runErr error
@@ -902,6 +967,10 @@ func runReal(m *memory.Database, c cfg, keep bool, cancelAtWrite, cancelAtRead i
 				out.merged = append(out.merged, fmt.Sprintf("A%d", i))
 			}
 		}
+	}
+	checkObs(&out, m, c)
+	if gOr != nil {
+		checkBookkeeping(m, out, fmt.Sprintf("start with cfg %+v", c))
 	}
 	return out
 }
@@ -1256,6 +1325,7 @@ func (b *bctx) checkRunQuiet(o runOut, sched string, rp any) {
 }
 
 func runB(c *hx.Ctx, or *hx.Oracle, r *hx.RNG, bc BCase, budget int) {
+	gReplay = map[string]any{"kind": "B", "case": bc}
 	w := buildWorld(bc)
 	b := &bctx{c: c, or: or, w: w}
 	full := cfg{nmig: 4}
@@ -1457,6 +1527,7 @@ func runP(c *hx.Ctx, or *hx.Oracle, pc PCase) {
 	hx.Must(core.WriteL1Head(start, &core.L1Head{BlockNumber: uint64(w.height), BlockHash: &felt.Zero, StateRoot: &felt.Zero}))
 	final := cfg{nmig: 4, prune: true, retained: uint64(pc.Retained)}
 	rp := map[string]any{"kind": "P", "p": pc}
+	gReplay = rp
 	ref := start.Copy()
 	o := runReal(ref, final, false, 0, 0)
 	checkSDL(c, or, o, ref, false, rp, "prune-toggle-uninterrupted")
@@ -1536,6 +1607,7 @@ func main() {
 	or := hx.StartOracle(c.OraclePath)
 	defer or.Close()
 	rng := hx.NewRNG(c.Seed)
+	gC, gOr = c, or
 
 	if c.ReplayIn != "" {
 		var rp struct {
@@ -1543,10 +1615,15 @@ func main() {
 			Case BCase
 			R    RCase
 			P    PCase
+			H    HCase
 		}
 		c.LoadReplay(&rp)
 		if rp.Kind == "P" {
 			runP(c, or, rp.P)
+		} else if rp.Kind == "H" {
+			for i := 0; i < 3; i++ { // batches and commit order are scheduler-dependent: a few attempts
+				runH(c, or, rng, rp.H, 6)
+			}
 		} else if rp.Kind == "B" {
 			for i := 0; i < 3; i++ { // commit order is scheduler-dependent: a few attempts
 				runB(c, or, rng, rp.Case, 4)
@@ -1671,6 +1748,16 @@ func main() {
 	}
 	for _, pc := range pcases {
 		runP(c, or, pc)
+	}
+	// ---- H ----
+	hcases := []HCase{{Contracts: 1, Blocks: 2, Seed: 1}, {Contracts: 6, Blocks: 3, Seed: 2}, {Contracts: 13, Blocks: 5, Seed: 3}}
+	if c.Thorough() {
+		for i := 0; i < 12; i++ {
+			hcases = append(hcases, HCase{Contracts: 2 + rng.Intn(40), Blocks: 2 + rng.Intn(8), Seed: rng.U64()})
+		}
+	}
+	for i, hcase := range hcases {
+		runH(c, or, rng.Fork(uint64(1000+i)), hcase, budget)
 	}
 	c.Extra["registered_migrations_checked_for_well_behaved"] = []string{"blocktransactions", "historyprunner(no-op config; real retention only uninterrupted)", "headstate", "statedifflength"}
 	c.Finish("real runner+registry vs extracted run_boot on multi-boot schedules (result, metadata, tokens, crash points, event log); real migrations: data_preserved via accessors, resume_same_db via full dump, well_behaved/applied_after_done on observed returns, bt_complete/preserved vs code")
